@@ -119,6 +119,7 @@ func loadProg(dir string, cfg Config) (*Prog, error) {
 	prog, _ := ssautil.AllPackages(initial, ssa.InstantiateGenerics)
 	prog.Build()
 	p.SSA = prog
+	canonicaliseOperands(prog)
 	for _, pk := range p.Pkgs {
 		sp := prog.Package(pk.Types)
 		if sp == nil {
@@ -208,7 +209,13 @@ func (p *Prog) LibFuncs() []*ssa.Function {
 }
 
 // Fn returns the package-level function name of package stun (nil if absent).
-func (p *Prog) Fn(name string) *ssa.Function { return p.Stun.Func(name) }
+func (p *Prog) Fn(name string) *ssa.Function {
+	if f := p.Stun.Func(name); f != nil {
+		return f
+	}
+	// a reference helper that was renamed (or became a method): resolved by its role
+	return p.roleFn(name)
+}
 
 // Named returns the named type of package stun.
 func (p *Prog) Named(name string) *types.Named {
@@ -356,6 +363,9 @@ func fnName(f *ssa.Function) string {
 	if f == nil {
 		return "<nil>"
 	}
+	if ref, ok := roleDisplay[f]; ok {
+		return ref // a renamed reference helper is reported (and keyed) under its reference name
+	}
 	s := f.String()
 	s = strings.ReplaceAll(s, modulePath+"/internal/", "")
 	s = strings.ReplaceAll(s, modulePath+"/", "")
@@ -384,4 +394,50 @@ func instrPos(in ssa.Instruction) token.Pos {
 		return in.Parent().Pos()
 	}
 	return token.NoPos
+}
+
+// canonicaliseOperands puts the constant operand of a comparison, and of a commutative integer operation,
+// on the right - in place, in every function of the module: `4 >= len(v)` and `len(v) <= 4`, `1 == f(x)` and
+// `f(x) == 1`, `0x8000 & t` and `t & 0x8000` are then one shape for every rule. Only the operand order (and
+// for ordered comparisons the mirrored operator) changes; both operands keep this instruction among their
+// referrers, and the value computed is the same.
+func canonicaliseOperands(prog *ssa.Program) {
+	for fn := range ssautil.AllFunctions(prog) {
+		if fn.Blocks == nil || fn.Pkg == nil || !strings.HasPrefix(fn.Pkg.Pkg.Path(), modulePath) {
+			continue
+		}
+		for _, b := range fn.Blocks {
+			for _, in := range b.Instrs {
+				bo, ok := in.(*ssa.BinOp)
+				if !ok {
+					continue
+				}
+				if _, isC := bo.X.(*ssa.Const); !isC {
+					continue
+				}
+				if _, isC := bo.Y.(*ssa.Const); isC {
+					continue
+				}
+				switch bo.Op {
+				case token.EQL, token.NEQ:
+				case token.LSS:
+					bo.Op = token.GTR
+				case token.LEQ:
+					bo.Op = token.GEQ
+				case token.GTR:
+					bo.Op = token.LSS
+				case token.GEQ:
+					bo.Op = token.LEQ
+				case token.ADD, token.MUL, token.AND, token.OR, token.XOR:
+					bt, isB := bo.X.Type().Underlying().(*types.Basic)
+					if !isB || bt.Info()&types.IsInteger == 0 {
+						continue
+					}
+				default:
+					continue
+				}
+				bo.X, bo.Y = bo.Y, bo.X
+			}
+		}
+	}
 }
